@@ -71,6 +71,16 @@ def families(tier):
             hs = [dict(bus='A', pat='P', name='hp', prog=[('disp', 'A', 'C', 'await'), ('pause',)]), dict(bus='A', pat='C', name='hc', prog=hc),
                   dict(bus=gbus, pat='G', name='hg', prog=[('pause',)]), dict(bus='A', pat='X', name='hx', prog=[('ret', 0)])]
             add('c13.nested', f'k{k}-g{gbus}', N, hs, [('disp', 'A', 'P', 'await'), ('disp', 'A', 'X', 'await')], names=names, shape='nested')
+    # a burst that overruns the 50-slot queue of a bus with a small history (the surplus dispatches are refused with QueueFull): the bound holds after the refused
+    # dispatches as well, and a refused event does not sit in the history
+    for N in Ns:
+        if N > 3:
+            continue
+        for src in ('main', 'handler'):
+            hs = [dict(bus='A', pat='Z', name='hz', prog=[('ret', 0)], kind='sync'), dict(bus='A', pat='P', name='hp', prog=[('burst', 'A', 'Z', 55), ('pause',)])]
+            main = ([('burst', 'A', 'Z', 55)] if src == 'main' else [('disp', 'A', 'P', 'ff')]) + [('pause',), ('idle', 'A')]
+            out.append(dict(prop='C13', family='c13.burst_past_the_queue_capacity', id=f'c13.qfull/N{N}-{src}', cfg=dict(cfg, max_points=300), params=dict(N=N, shape='qfull'),
+                            scn=dict(buses={'A': dict(hist=N)}, order=['A'], handlers=hs, main=main, actors=[], forwards=[], settle=3.0, watch_hist=True, no_watch=False)))
     # an event that completed on another bus is dispatched to the bounded bus as well and is IN FLIGHT there when the history overflows, next to younger events that
     # are genuinely complete: the one in flight is not the one to go
     for N in Ns:
@@ -174,7 +184,10 @@ def oracle(spec, res):
                     n = cnt.get((bus, h['name'], ev), 0)
                     if n != 1:
                         out.append(V('eviction_changed_processing', f'{bus}.{h["name"]} ran {n} times for {ev}'))
+        acc_evs = {ev for (_, ev) in accepted}
         for ev, fe in res['final']['events'].items():
+            if ev not in acc_evs:
+                continue  # every dispatch of it was refused (queue full): it was never this bus's to complete
             if fe['status'] != 'completed' or not fe['sig']:
                 out.append(V('event_never_completes_after_eviction', f'{ev}: {fe["status"]} sig={fe["sig"]}', N=min(N, 3)))
     return out[:8]
